@@ -316,6 +316,7 @@ func evalWorld(r *ev.Run, w world) {
 		nontrivial = fmt.Sprintf("%v|%d|%d|%d|%s|%d", w.Recs, w.Addr, w.Addl, w.Port, w.Network, w.Stop)
 	}
 	r.Eval(nontrivial, oc)
+	r.Add("transitions", int64(len(got)+1)) // model steps compared: each yield plus termination
 }
 
 func Run(r *ev.Run) {
@@ -405,4 +406,10 @@ func Run(r *ev.Run) {
 		})
 	}
 	r.Set("families", fmt.Sprint(sizes))
+	total := 0
+	for _, s := range sizes {
+		total += s
+	}
+	r.Set("states", total)                        // model inputs (each is one initial state of the pure function)
+	r.Set("traces_validated_against_impl", total) // every model trace is replayed on the real Targets
 }
